@@ -642,11 +642,22 @@ mod with_arb {
         let k = src.below(c.len() + 2);
         let start = window.saturating_sub(k);
         let mut bytes: Vec<u8> = (0..start).map(|i| b'a' + (i % 26) as u8).collect();
-        let label = match src.below(6) {
+        let label = match src.below(7) {
             0 => {
                 // ill-formed: a lone continuation / invalid byte instead of the character
                 bytes.push(*src.pick(&[0x80u8, 0xBF, 0xC0, 0xF8, 0xFF]));
                 "window:ill-formed-byte"
+            }
+            6 => {
+                // the window ends right after a LEAD byte whose second byte is restricted (E0, ED, F0,
+                // F4), and what follows outside the window are continuation bytes from the forbidden
+                // part of the range (overlong, surrogate, beyond U+10FFFF) or from the allowed part
+                let (lead, bad, good): (u8, u8, u8) = *src.pick(&[(0xE0, 0x80, 0xA0), (0xE0, 0x9F, 0xBF), (0xED, 0xA0, 0x9F), (0xED, 0xBF, 0x80), (0xF0, 0x80, 0x90), (0xF0, 0x8F, 0xBF), (0xF4, 0x90, 0x8F), (0xF4, 0xBF, 0x80)]);
+                bytes.truncate(window.saturating_sub(1));
+                bytes.push(lead);
+                bytes.push(if src.chance(3, 4) { bad } else { good });
+                bytes.extend_from_slice(&[0x80, 0x80]);
+                "window:ends-after-restricted-lead-byte"
             }
             1 => {
                 // the character is cut by the end of the data that follows (never completed)
@@ -732,7 +743,12 @@ mod with_arb {
                 d.push(1); // set = Some
                 let l = *src.pick(&[0usize, 1, 16, 17, 3008, 4095, 4096, 4097, 5000, 7000]);
                 d.extend((0..l).map(|i| (i as u8) | 0x80));
-                let off: u32 = if src.bool() { 0 } else { src.word() };
+                let off: u32 = match src.below(4) {
+                    0 => 0,
+                    1 => u32::MAX - src.below(8) as u32,
+                    2 => u32::MAX - (l as u32).min(u32::MAX),
+                    _ => src.word(),
+                };
                 d.extend_from_slice(&off.to_le_bytes());
                 let lenp = src.bool();
                 d.push(lenp as u8);
@@ -855,7 +871,7 @@ mod with_arb {
             }
         }
         ctx.require(&["layout:make_credential", "layout:get_assertion", "layout:credential_management", "window:cuts-a-character",
-            "window:on-a-boundary", "window:ill-formed-byte", "window:char-never-completed", "window:borrowed-rp-id", "window:short-rp-id-hash", "layout:large_blobs", "layout:large_blobs:fragment>4096"]);
+            "window:on-a-boundary", "window:ill-formed-byte", "window:char-never-completed", "window:borrowed-rp-id", "window:short-rp-id-hash", "window:ends-after-restricted-lead-byte", "layout:large_blobs", "layout:large_blobs:fragment>4096"]);
         ctx.require(&["entry:ctap1::Request", "entry:ctap2::Request", "entry:authenticator::Request", "result:ok", "result:not-enough-data", "pattern:repeat", "pattern:mix", "field-at-capacity"]);
     }
 }
